@@ -20,6 +20,7 @@ pub fn next_key(mut key: Key) -> Option<Key> {
     }
     None
 }
+impl MemState { pub fn default2() -> (MemState, MemState) { (MemState::default(), MemState::default()) } }
 impl StateRead for MemState {
     type Error = String;
     fn key_range(&self, c: ContentAddress, mut key: Key, n: usize) -> Result<Vec<Vec<Word>>, String> {
@@ -30,6 +31,24 @@ impl StateRead for MemState {
             match next_key(key) { Some(k) => key = k, None => break }
         }
         Ok(out)
+    }
+}
+
+/// Program lookup that delays each call by a pseudo-random amount, to perturb the order in which parallel tasks finish.
+#[derive(Clone)]
+pub struct JitterPrograms(pub Arc<HashMap<ContentAddress, Arc<Program>>>, pub u64);
+fn jitter(seed: u64, salt: u64) {
+    if seed == 0 { return; }
+    let mut r = Rng::new(seed ^ salt.wrapping_mul(0x9E3779B97F4A7C15));
+    let us = r.below(300);
+    if us > 150 { std::thread::sleep(std::time::Duration::from_micros(us - 150)); } else if us > 100 { std::thread::yield_now(); }
+}
+impl chk::GetProgram for JitterPrograms {
+    fn get_program(&self, ca: &ContentAddress) -> Arc<Program> {
+        static CALLS: std::sync::atomic::AtomicU64 = std::sync::atomic::AtomicU64::new(0);
+        let n = CALLS.fetch_add(1, std::sync::atomic::Ordering::Relaxed);
+        jitter(self.1, n ^ ca.0[0] as u64);
+        self.0[ca].clone()
     }
 }
 
@@ -217,15 +236,19 @@ fn coq_pred(p: &Predicate) -> String {
         zlist(p.edges.iter().map(|e| *e as i64)))
 }
 
-pub fn run_case(c: &GCase) -> (String, serde_json::Value, bool) {
+pub fn run_case(c: &GCase) -> (String, serde_json::Value, bool) { run_case_in(c, None, 0) }
+
+/// Runs the case inside the given rayon pool (or the global one) with the given jitter seed (0 = none).
+pub fn run_case_in(c: &GCase, pool: Option<&rayon::ThreadPool>, jitter_seed: u64) -> (String, serde_json::Value, bool) {
     let get_pred: Arc<HashMap<PredicateAddress, Arc<Predicate>>> = Arc::new(c.preds.iter().map(|(ca, pa, p)|
         (PredicateAddress { contract: ca.clone(), predicate: pa.clone() }, Arc::new(p.clone()))).collect());
-    let get_prog: Arc<HashMap<ContentAddress, Arc<Program>>> = Arc::new(c.programs.iter().map(|(a, b)| (a.clone(), Arc::new(Program(b.clone())))).collect());
+    let get_prog = JitterPrograms(Arc::new(c.programs.iter().map(|(a, b)| (a.clone(), Arc::new(Program(b.clone())))).collect()), jitter_seed);
     let state = MemState(Arc::new(c.state.clone()));
     let set = SolutionSet { solutions: c.sols.clone() };
     let config = Arc::new(CheckPredicateConfig { collect_all_failures: c.collect_all });
     let _ = chk::verif::take_runs();
-    let r = catch_unwind(AssertUnwindSafe(|| chk::check_and_compute_solution_set_two_pass(&state, set, get_pred.clone(), get_prog.clone(), config)));
+    let call = || chk::check_and_compute_solution_set_two_pass(&state, set, get_pred.clone(), get_prog.clone(), config);
+    let r = catch_unwind(AssertUnwindSafe(|| match pool { Some(p) => p.install(call), None => call() }));
     let runs = chk::verif::take_runs();
     let (mut res, mut gas, mut sols, mut errs, mut err_sol) = (4i64, 0u64, vec![], vec![], 0i64);
     match r {
@@ -263,6 +286,10 @@ pub fn run_case(c: &GCase) -> (String, serde_json::Value, bool) {
         "collect_all": c.collect_all, "impl_res": res, "gas": gas, "runs": runs.len(),
         "declared": c.sols.iter().map(|s| s.state_mutations.iter().map(|m| (m.key.clone(), m.value.clone())).collect::<Vec<_>>()).collect::<Vec<_>>()});
     if let Some(k) = c.known_class { desc["known_class"] = json!(k); }
+    // canonical form for comparing runs under different schedules: the recorded events as a sorted multiset
+    let mut evs: Vec<String> = runs.iter().map(|r| format!("{:?}", r)).collect();
+    evs.sort();
+    desc["canon"] = json!(format!("{} {} {:?} {:?} {} {:?}", res, gas, sols, errs, err_sol, evs));
     (lit, desc, runs.len() >= 2)
 }
 
@@ -334,4 +361,39 @@ pub fn run(a: &Args) {
         id += 1;
     }
     out.write(&a.out, a.shards, "graph");
+}
+
+/// Engine `sched`: every case is run under thread pools of several sizes with perturbed task timing; the results must be
+/// identical to each other; the literal of one of the runs is then compared with the sequential model and reference in Coq.
+pub fn run_sched(a: &Args) {
+    let mut out = Out::new("From EB Require Import Corr.RunGraph.", "graph_case", &["graph_mismatches", "graph_spec_failures"]);
+    out.only = a.only;
+    let sizes = [1usize, 2, 3, 4, 8, 16];
+    let pools: Vec<rayon::ThreadPool> = sizes.iter().map(|n| rayon::ThreadPoolBuilder::new().num_threads(*n).build().unwrap()).collect();
+    let mut id = 0u64;
+    let mut cases: Vec<GCase> = corpus();
+    for i in 0..a.count as u64 { let mut rng = Rng::for_case(a.seed, 2, i); cases.push(gen_case(&mut rng)); }
+    for c in &cases {
+        if a.only.map(|o| o == id).unwrap_or(true) {
+            let mut lits = vec![];
+            for (k, p) in pools.iter().enumerate() {
+                let (lit, d, nt) = run_case_in(c, Some(p), a.seed.wrapping_add(id * 31 + k as u64) | 1);
+                lits.push((lit, d, nt));
+            }
+            let first = lits[0].1["canon"].clone();
+            let differing: Vec<usize> = lits.iter().enumerate().filter(|(_, l)| l.1["canon"] != first).map(|(k, _)| sizes[k]).collect();
+            let pick = (id as usize) % lits.len();
+            let (mut lit, mut d, nt) = lits.swap_remove(pick);
+            d["pool_sizes"] = json!(sizes); d["pools_disagree"] = json!(differing);
+            if !differing.is_empty() {
+                // make the disagreement visible to the specification check: the run counts as a failure of determinism
+                lit = lit.replacen("%N 0 ", "%N 4 ", 1).replacen("%N 1 ", "%N 4 ", 1).replacen("%N 2 ", "%N 4 ", 1).replacen("%N 3 ", "%N 4 ", 1);
+                out.bump("pools_disagree");
+            }
+            out.bump("cases_x6_pools");
+            out.push(id, lit, d, nt);
+        }
+        id += 1;
+    }
+    out.write(&a.out, a.shards, "sched");
 }
